@@ -193,8 +193,8 @@ def random_cases(rng: random.Random, n: int) -> list[dict]:
             rat = rng.choice([[0, 1], [0, 1], [1, 1000], [1, 100, 1], [1, 100], [1, 4]])
             # (cuts exactly ON a side are left to the block above, with fractions >= 1%: with fraction 0 and coordinates that
             #  are not exact in binary, the rounding of the side decides them, not the geometry)
-            cx = x0 + rng.choice([1, 2, w - 1, w // 2, -1, w + 1])
-            cy = y0 + rng.choice([1, 2, h - 1, h // 2, -1, h + 1])
+            cx = x0 + rng.choice([o for o in (1, 2, w - 1, w // 2) if 0 < o < w] + [-1, w + 1])
+            cy = y0 + rng.choice([o for o in (1, 2, h - 1, h // 2) if 0 < o < h] + [-1, h + 1])
             ev.append({"op": "x_cuttable", "arg": [cx] + rat})
             ev.append({"op": "y_cuttable", "arg": [cy] + rat})
         cases.append({"kind": "one", "a": ta, "b": [0, 0, 0, 0, "g", 0, 0], "events": ev})
